@@ -2,6 +2,7 @@ package main
 
 import (
 	"fmt"
+	"math/big"
 	"os"
 	"path/filepath"
 	"regexp"
@@ -252,6 +253,46 @@ func writeSmallPoseidon(repoRoot, srcRoot, verifRoot string, check bool) int {
 		stale += installText(filepath.Join(repoRoot, strings.TrimPrefix(pk, "./"), "zz_verif_contracts_compressor.go"), strings.ReplaceAll(string(t), "FIELD", field), check)
 	}
 	return stale
+}
+
+// writeRegistry: the contract of hash.Hash.Size, the digest size the registry reports for every registered hash.
+// The sizes are computed here from the pinned moduli (a digest of MiMC / Poseidon2 over a curve is one element of its
+// scalar field: 8 bytes per 64-bit limb) and from the published parameters of the small-field instances (a digest
+// is half a state: 8 elements of 4 bytes for koalabear and babybear, 4 elements of 8 bytes for goldilocks).
+func writeRegistry(repoRoot, srcRoot string, pinned map[string]string, check bool) int {
+	if _, err := os.Stat(filepath.Join(srcRoot, "hash", "hashes.go")); err != nil {
+		return 0
+	}
+	curves := [][2]string{{"BN254", "bn254"}, {"BLS12_381", "bls12-381"}, {"BLS12_377", "bls12-377"}, {"BW6_761", "bw6-761"},
+		{"BLS24_315", "bls24-315"}, {"BLS24_317", "bls24-317"}, {"BW6_633", "bw6-633"}, {"GRUMPKIN", "grumpkin"}}
+	var b strings.Builder
+	b.WriteString(`//go:build verif
+
+// Contract for the size table of the hash registry (comment-only; installed by /verif/gcv gen-contracts): Size
+// reports, for every hash of the registry, the length of the digests that hash produces. The lengths are not taken
+// from the code: a digest of MiMC or Poseidon2 over a curve is one element of its scalar field (8 bytes per 64-bit
+// limb of the pinned modulus), a digest of the small-field Poseidon2 instances is half a state (published parameters).
+
+package hash
+
+//@ func Hash.Size
+//@ requires m < maxHash
+`)
+	for _, c := range curves {
+		q, ok := new(big.Int).SetString(pinned["ecc/"+c[1]+"/fr"], 10)
+		if !ok {
+			continue
+		}
+		n := 8 * ((q.BitLen() + 63) / 64)
+		for _, fam := range []string{"MIMC", "POSEIDON2"} {
+			fmt.Fprintf(&b, "//@ ensures[%s-%s] m == %s_%s ==> result == %d\n", strings.ToLower(fam), c[1], fam, c[0], n)
+		}
+	}
+	for _, s := range [][2]string{{"KOALABEAR", "32"}, {"BABYBEAR", "32"}, {"GOLDILOCKS", "32"}} {
+		fmt.Fprintf(&b, "//@ ensures[poseidon2-%s] m == POSEIDON2_%s ==> result == %s\n", strings.ToLower(s[0]), s[0], s[1])
+	}
+	b.WriteString("//@ modifies nothing\n//@ end\n")
+	return installText(filepath.Join(repoRoot, "hash", "zz_verif_contracts_registry.go"), b.String(), check)
 }
 
 func writeStream(repoRoot, srcRoot string, check bool) int {
